@@ -502,6 +502,10 @@ def main_for(module, argv):
                     r = s.run(d["case"])
                     print(json.dumps({"ok": r.ok, "msg": r.msg, "observed": _clip(r.obs)}, indent=1, default=str))
                     if not r.ok:
+                        fid = s.finding_of(d["case"], r)
+                        if fid and is_open_finding(module.PROPERTY, fid):   # a listed finding: reported, not an alarm
+                            print(f"KNOWN-FINDING: property={module.PROPERTY} {fid}: {finding_text(module.PROPERTY, fid)}")
+                            return 0
                         print(f"VIOLATION property={module.PROPERTY} replay={a.replay}")
                         return 1
                     if d.get("kind") == "input":
